@@ -3,6 +3,7 @@ CONSTANTS
   Lose = 1
   Swap = 1
   Dup = 1
+  InLoop = FALSE
 INVARIANT CompletesAtMostOnce
 INVARIANT CompletionMeansIdentified
 INVARIANT StepsInRange
